@@ -18,9 +18,10 @@ def syntax_judge(rec):
         for path, data in nxt.items():
             if not path.endswith(".py") or prev.get(path) == data or not isinstance(data, bytes):
                 continue
-            if not progspace.py_ok(prev[path], True):
+            compiles = progspace.py_ok(prev[path], True)
+            if not compiles and not progspace.py_ok(prev[path], False):
                 continue
-            err = parse_error(data, True)
+            err = parse_error(data, compiles)
             if err:
                 yield (f"{path}|syntax", f"{name}: {path} no longer compiles: {err}")
 
